@@ -252,23 +252,23 @@ SPECS = {
         "level_note": SCHED_NOTE, "technique": "schedule-generating property-based testing: deterministic scheduler (pthread interposition) + rapidcheck, differential against the single-thread build", "family": "sched",
         "engine": "rapidcheck bytes -> (case, schedule); sched/vsched.cpp owns the interleaving; each case in a forked child",
         "stages": (lambda tier: sched_stages("C09", 500, 700, floors={"blocks_ge2": 100, "blocks_ge4": 30, "threads_ge3": 100}, nontrivial_floor=100, thorough_mult=15)(tier)
-                   + [{"name": "enum", "binary": "sched_rc", "plan": [(s, 1, 10) for s in range(18)], "param": "enum:3:600000" if tier == "thorough" else "enum:2:12000",
+                   + [{"name": "enum", "binary": "sched_rc", "plan": [(s, 1, 10) for s in range(18)], "param": "enum:3:150000" if tier == "thorough" else "enum:2:12000",
                        "label_floors": {"enum_complete": 4}, "nontrivial_floor": 10}]
                    + [{"name": "native", "binary": "native_rc", "plan": [(0, 30 * (10 if tier == "thorough" else 1), 60)] * 16,
                        "label_floors": {"blocks_ge1000": 20}, "nontrivial_floor": 100, "nondeterministic": True}]),
         "rule": "case = (S of 3..600 strings, overhead, cut, threads, schedule bytes); non-trivial = >=2 blocks and >=1 pre-emption of a "
                 "runnable thread at a synchronisation point; distinct = hash of the case bytes. enum stage: case = configuration (2-4 one-string "
-                "blocks, 1-3 threads, overhead 25|0), every schedule with <=2 pre-emptions (cap 12 000; thorough 3 / 600 000), counter enum_schedules. "
+                "blocks, 1-3 threads, overhead 25|0), every schedule with <=2 pre-emptions (cap 12 000; thorough 3 / 150 000), counter enum_schedules. "
                 "native stage: case = (50..6000 short strings, cut 1..48, 1..16 threads) built with real threads in an ASan build; non-trivial = >=50 blocks",
         "assumptions": ["a deadlock under a generated schedule is C10's event; for C09 the case is inconclusive",
                         "two single-thread builds must agree first (otherwise C08's matter, case inconclusive)"],
     },
     "C10": {
-        "level_text": 'Generated (workers 1..4, tasks 0..12, producer protocol, schedule) cases: WorkerPool runs under the deterministic scheduler; oracle: every task counter == 1, no task entered while running, no state in which all threads are blocked (this turns "wait_workers returns in every schedule" into a per-schedule safety check). A second stage enumerates, for each of 36 small configurations (1-3 workers, 0-3 tasks, 3 producer protocols), EVERY schedule with at most 2 pre-emptions of a runnable thread (1 with three workers; 3 / 2 in the thorough tier) by depth-first search over the recorded choice points, capped at 40 000 (2 000 000) schedules per configuration; labels enum_complete / enum_capped say how many configurations were exhausted.',
+        "level_text": 'Generated (workers 1..4, tasks 0..12, producer protocol, schedule) cases: WorkerPool runs under the deterministic scheduler; oracle: every task counter == 1, no task entered while running, no state in which all threads are blocked (this turns "wait_workers returns in every schedule" into a per-schedule safety check). A second stage enumerates, for each of 36 small configurations (1-3 workers, 0-3 tasks, 3 producer protocols), EVERY schedule with at most 2 pre-emptions of a runnable thread (1 with three workers; 3 / 2 in the thorough tier) by depth-first search over the recorded choice points, capped at 40 000 (400 000) schedules per configuration; labels enum_complete / enum_capped say how many configurations were exhausted.',
         "level_note": SCHED_NOTE, "technique": "schedule-generating property-based testing: deterministic scheduler (pthread interposition) + rapidcheck; deadlock = no enabled thread", "family": "sched",
         "engine": "rapidcheck bytes -> (pool scenario, schedule); sched/vsched.cpp owns the interleaving; each case in a forked child",
         "stages": (lambda tier: sched_stages("C10", 6000, 260, floors={"threads_ge3": 2000, "preemptions_ge3": 2000, "notify_without_waiter": 500}, nontrivial_floor=2000, thorough_mult=10)(tier)
-                   + [{"name": "enum", "binary": "sched_rc", "plan": [(s, 1, 10) for s in range(36)], "param": "enum:3:2000000" if tier == "thorough" else "enum:2:40000",
+                   + [{"name": "enum", "binary": "sched_rc", "plan": [(s, 1, 10) for s in range(36)], "param": "enum:3:400000" if tier == "thorough" else "enum:2:40000",
                        "label_floors": {"enum_complete": 12}, "nontrivial_floor": 20}]),
         "rule": "case = (workers, tasks, protocol in {stop-after-add, stop-after-completion-cv, last-task-stops}, schedule bytes, strategy "
                 "random|PCT); non-trivial = >=1 task and >=1 pre-emption of a runnable thread; distinct = hash of the case bytes; enumeration stage: "
